@@ -153,6 +153,7 @@ def ops(prog):
         # the integer path assigns value_int = var_d.value_int <cop> var_s.value_int in a 64-bit type
         good = False
         detail = ''
+        other = []
         for x in m.nodes.values():
             if x['k'] == 'BinaryOperator' and x.get('op') == '=' and strip(kids(x)[0]).get('n') == 'value_int':
                 r = strip(kids(x)[1], casts=False)
@@ -164,6 +165,12 @@ def ops(prog):
                         good = True
                     else:
                         detail = 'value_int = %s (type width %s)' % (show(rr)[:50], w)
+                        if 'var_d' in show(rr) and 'var_s' in show(rr):
+                            other.append(x)       # a second integer path that computes something else from both operands
+        if good and other:
+            good = False
+            detail = 'a second integer path `%s` (line %d) computes the result differently for some operands' % (
+                show(other[0])[:60], other[0]['l'])
         obs.append(Ob('OPS', m.file, m.line, m.q, 'semantics:' + cop, DISCHARGED if good else VIOLATED,
                       '' if good else 'integer path of %s is not `value_int = var_d.value_int %s var_s.value_int` in 64 bits: %s' % (meth, cop, detail),
                       '%s applies %s on 64-bit value_int' % (meth, cop), False))
